@@ -1,0 +1,71 @@
+//go:build verif
+// +build verif
+
+package rafthttp
+
+// Contracts for the deductive verifier in /verif (govc).  Comment-only file,
+// compiled only under the build tag `verif`.
+
+//@ property C16
+
+//@ noeffect (*github.com/youzan/ZanRedisDB/stats.PeerStats).Succ (*github.com/youzan/ZanRedisDB/stats.PeerStats).Fail
+
+// raft-group identity on the wire = (node, group, replica)
+//@ func isSameGroup(l *raftpb.Group, r *raftpb.Group) bool
+//@   requires l != nil && r != nil
+//@   ensures result <==> (l.NodeId == r.NodeId && l.GroupId == r.GroupId && l.RaftReplicaId == r.RaftReplicaId)
+
+//@ func isLinkHeartbeatMessage(m *raftpb.Message) bool
+//@   requires m != nil
+//@   ensures result <==> (m.Type == raftpb.MsgHeartbeat && m.From == 0 && m.To == 0)
+
+// the compact (header-less) encoding is chosen only when every field the decoder fills from its context
+// equals that context: index, term (= log term), and both group identities
+//@ func (enc *msgAppV2Encoder) isContinue(m *raftpb.Message) bool
+//@   requires enc != nil && m != nil
+//@   ensures result <==> (enc.index == m.Index && enc.term == m.LogTerm && m.LogTerm == m.Term && enc.ToGroup.NodeId == m.ToGroup.NodeId && enc.ToGroup.GroupId == m.ToGroup.GroupId && enc.ToGroup.RaftReplicaId == m.ToGroup.RaftReplicaId && enc.FromGroup.NodeId == m.FromGroup.NodeId && enc.FromGroup.GroupId == m.FromGroup.GroupId && enc.FromGroup.RaftReplicaId == m.FromGroup.RaftReplicaId)
+
+//@ extern (*github.com/youzan/ZanRedisDB/raft/raftpb.Entry).MarshalTo func(m *Entry, dAtA []byte) (int, error)
+//@   modifies dAtA[0:len(dAtA)]
+//@ extern (*github.com/youzan/ZanRedisDB/raft/raftpb.Message).MarshalTo func(m *Message, dAtA []byte) (int, error)
+//@   modifies dAtA[0:len(dAtA)]
+//@ extern (*github.com/youzan/ZanRedisDB/raft/raftpb.Message).Size func(m *Message) int
+//@   ensures result >= 0
+
+// encoder context after a message: a full message sets it to (m.Term, last index carried, groups);
+// a compact message advances the index by the number of entries; a link heartbeat leaves it alone
+//@ spec lastIdx(m *raftpb.Message) uint64 = ite(len(m.Entries) > 0, m.Entries[len(m.Entries)-1].Index, m.Index)
+//@ func (enc *msgAppV2Encoder) encode(m *raftpb.Message) error
+//@   requires enc != nil && m != nil && len(enc.uint8buf) >= 1 && len(enc.uint64buf) >= 8 && len(enc.buf) >= 1048576 && enc.index + len(m.Entries) < 18446744073709551615
+//@   requires disjoint(enc.uint8buf, enc.uint64buf) && disjoint(enc.buf, enc.uint64buf) && disjoint(enc.buf, enc.uint8buf)
+//@   ensures result == nil && old(m.Type == raftpb.MsgHeartbeat && m.From == 0 && m.To == 0) ==> enc.term == old(enc.term) && enc.index == old(enc.index) && enc.ToGroup.RaftReplicaId == old(enc.ToGroup.RaftReplicaId) && enc.FromGroup.RaftReplicaId == old(enc.FromGroup.RaftReplicaId)
+//@   ensures result == nil && !old(m.Type == raftpb.MsgHeartbeat && m.From == 0 && m.To == 0) && old(enc.index == m.Index && enc.term == m.LogTerm && m.LogTerm == m.Term && enc.ToGroup.NodeId == m.ToGroup.NodeId && enc.ToGroup.GroupId == m.ToGroup.GroupId && enc.ToGroup.RaftReplicaId == m.ToGroup.RaftReplicaId && enc.FromGroup.NodeId == m.FromGroup.NodeId && enc.FromGroup.GroupId == m.FromGroup.GroupId && enc.FromGroup.RaftReplicaId == m.FromGroup.RaftReplicaId) ==> enc.term == old(enc.term) && enc.index == old(enc.index) + len(m.Entries)
+//@   ensures result == nil && !old(m.Type == raftpb.MsgHeartbeat && m.From == 0 && m.To == 0) && !old(enc.index == m.Index && enc.term == m.LogTerm && m.LogTerm == m.Term && enc.ToGroup.NodeId == m.ToGroup.NodeId && enc.ToGroup.GroupId == m.ToGroup.GroupId && enc.ToGroup.RaftReplicaId == m.ToGroup.RaftReplicaId && enc.FromGroup.NodeId == m.FromGroup.NodeId && enc.FromGroup.GroupId == m.FromGroup.GroupId && enc.FromGroup.RaftReplicaId == m.FromGroup.RaftReplicaId) ==> enc.term == m.Term && enc.index == lastIdx(m) && enc.ToGroup.NodeId == m.ToGroup.NodeId && enc.ToGroup.GroupId == m.ToGroup.GroupId && enc.ToGroup.RaftReplicaId == m.ToGroup.RaftReplicaId && enc.FromGroup.NodeId == m.FromGroup.NodeId && enc.FromGroup.GroupId == m.FromGroup.GroupId && enc.FromGroup.RaftReplicaId == m.FromGroup.RaftReplicaId
+//@   modifies enc.term, enc.index, enc.ToGroup, enc.FromGroup, enc.uint8buf[0:1], enc.uint64buf[0:8], enc.buf[0:1048576]
+//@ loop 1
+//@   invariant 0 <= i && i <= len(m.Entries) && enc.index == old(enc.index) + i && enc.term == old(enc.term) && len(enc.uint64buf) >= 8 && len(enc.buf) >= 1048576 && sameSlice(enc.uint64buf, old(enc.uint64buf)) && sameSlice(enc.buf, old(enc.buf)) && sameSlice(m.Entries, old(m.Entries))
+
+// decoder context: the mirror image of the encoder's
+//@ extern github.com/youzan/ZanRedisDB/pkg/pbutil.MaybeUnmarshal func(um Unmarshaler, data []byte) error
+//@   modifies pointee(um)
+//@ extern (*github.com/youzan/ZanRedisDB/raft/raftpb.Message).Unmarshal func(m *Message, dAtA []byte) error
+//@   modifies m.Type, m.To, m.From, m.Term, m.LogTerm, m.Index, m.Entries, m.Commit, m.Snapshot, m.Reject, m.RejectHint, m.Context, m.FromGroup, m.ToGroup
+
+//@ func (dec *msgAppV2Decoder) decode() (raftpb.Message, error)
+//@   requires dec != nil && len(dec.uint8buf) >= 1 && len(dec.uint64buf) >= 8 && len(dec.buf) >= 1048576 && dec.index < 4611686018427387904
+//@   requires disjoint(dec.uint8buf, dec.uint64buf) && disjoint(dec.buf, dec.uint64buf) && disjoint(dec.buf, dec.uint8buf)
+//@   ensures result1 == nil && old(ghost(reads, dec.r)) + 1 == ghost(reads, dec.r) ==> dec.term == old(dec.term) && dec.index == old(dec.index)
+//@   ensures result1 == nil && dec.uint8buf[0] == 1 ==> result0.Type == raftpb.MsgApp && result0.Term == old(dec.term) && result0.LogTerm == old(dec.term) && result0.Index == old(dec.index) && result0.From == old(dec.FromGroup.RaftReplicaId) && result0.To == old(dec.ToGroup.RaftReplicaId) && result0.FromGroup.GroupId == old(dec.FromGroup.GroupId) && result0.ToGroup.GroupId == old(dec.ToGroup.GroupId) && dec.term == old(dec.term) && dec.index == old(dec.index) + len(result0.Entries)
+//@   ensures result1 == nil && dec.uint8buf[0] == 2 ==> dec.term == result0.Term && dec.index == ite(len(result0.Entries) > 0, result0.Entries[len(result0.Entries)-1].Index, result0.Index) && dec.FromGroup.RaftReplicaId == result0.FromGroup.RaftReplicaId && dec.ToGroup.RaftReplicaId == result0.ToGroup.RaftReplicaId && dec.FromGroup.NodeId == result0.FromGroup.NodeId && dec.ToGroup.NodeId == result0.ToGroup.NodeId && dec.FromGroup.GroupId == result0.FromGroup.GroupId && dec.ToGroup.GroupId == result0.ToGroup.GroupId
+//@   ensures result1 == nil ==> ghost(reads, dec.r) > old(ghost(reads, dec.r))
+//@   modifies *
+//@ loop 1
+//@   invariant 0 <= i && i <= int(l) && dec.index == old(dec.index) + i && dec.term == old(dec.term) && dec.r == old(dec.r) && len(dec.uint64buf) >= 8 && len(dec.buf) >= 1048576 && sameSlice(dec.uint64buf, old(dec.uint64buf)) && sameSlice(dec.buf, old(dec.buf)) && disjoint(dec.buf, dec.uint64buf)
+//@   invariant len(m.Entries) == int(l) && fresh(m.Entries) && ghost(reads, dec.r) > old(ghost(reads, dec.r))
+//@   invariant dec.uint8buf[0] == 1 && sameSlice(dec.uint8buf, old(dec.uint8buf)) && m.Type == raftpb.MsgApp && m.Term == old(dec.term) && m.LogTerm == old(dec.term) && m.Index == old(dec.index) && m.From == old(dec.FromGroup.RaftReplicaId) && m.To == old(dec.ToGroup.RaftReplicaId) && m.FromGroup.GroupId == old(dec.FromGroup.GroupId) && m.ToGroup.GroupId == old(dec.ToGroup.GroupId)
+
+// generic framing: a message is delivered only when both the length prefix and the whole body were read
+//@ func (dec *messageDecoder) decode() (raftpb.Message, error)
+//@   requires dec != nil
+//@   ensures result1 == nil ==> ghost(reads, dec.r) == old(ghost(reads, dec.r)) + 2
+//@   modifies *
